@@ -6,6 +6,7 @@ import (
 	"fmt"
 	"go/ast"
 	"go/types"
+	"golang.org/x/tools/go/types/typeutil"
 	"regexp"
 	"sort"
 	"strings"
@@ -196,6 +197,23 @@ func (c *RC) startExemption(cs *Site) bool {
 			return false
 		case *ast.ExprStmt:
 			if call, ok := x.X.(*ast.CallExpr); ok {
+				// logging is not an effect (its arguments must not call into the module)
+				if f, ok := typeutil.Callee(fn.Pkg.TypesInfo, call).(*types.Func); ok && f.Pkg() != nil && strings.HasPrefix(f.Pkg().Path(), "go.uber.org/zap") {
+					quiet := true
+					for _, a := range call.Args {
+						ast.Inspect(a, func(n ast.Node) bool {
+							if ac, ok := n.(*ast.CallExpr); ok {
+								if t := w.staticCallee(ac); t != nil && !c.A.isPure(t) {
+									quiet = false
+								}
+							}
+							return true
+						})
+					}
+					if quiet {
+						continue
+					}
+				}
 				if t := w.staticCallee(call); t != nil && inis[t] && sawCache && !sawInit && len(call.Args) > 0 {
 					if tv, ok := fn.Pkg.TypesInfo.Types[call.Args[0]]; ok && tv.Value != nil && tv.Value.ExactString() == "0" {
 						sawInit = true
